@@ -1,8 +1,825 @@
-//! placeholder: this component is not built yet
+//! C15 — correspondence of `trion::asm::memory::map::MemoryMap` with the Lean model `Trion.Map` and the
+//! property oracle: a `BTreeMap<u32, u8>` shadow dictionary evaluated directly on the implementation.
+//!
+//! Inputs (replayable): `run <op>;<op>;…` (a whole history on an empty map, see Driver/Map.lean) and
+//! `enum <base> <depth> <qdepth> <prefix>` (all histories of length ≤ depth over the 58-op alphabet of the
+//! 6-address window at `base` that start with `prefix`).
+use std::collections::BTreeMap;
+use std::sync::atomic::{AtomicUsize, Ordering};
+use std::sync::Mutex;
+
+use trion::asm::memory::map::{MemoryMap, PutError, Search};
+use trion::asm::memory::MemoryRange;
+
 use crate::common::*;
 
-pub fn run(id: &str, cx: &mut Cx)
+type Shadow = BTreeMap<u32, u8>;
+
+// ------------------------------------------------------------------------------------------------
+// shadow dictionary helpers (the oracle's side)
+
+/// maximal runs of occupied addresses: (first, bytes)
+fn runs(sh: &Shadow) -> Vec<(u32, Vec<u8>)>
 {
-	cx.report.notes.push(format!("component for {id} not implemented"));
-	cx.report.oracle_fail("-", "harness component not implemented");
+	let mut out: Vec<(u32, Vec<u8>)> = Vec::new();
+	for (&a, &b) in sh
+	{
+		match out.last_mut()
+		{
+			Some((f, d)) if (*f as u64) + d.len() as u64 == a as u64 => d.push(b),
+			_ => out.push((a, vec![b])),
+		}
+	}
+	out
+}
+
+fn run_last(r: &(u32, Vec<u8>)) -> u32 {r.0 + (r.1.len() - 1) as u32}
+
+fn fmt_run(r: &(u32, Vec<u8>)) -> String {format!("{:08x} {:08x} {}", r.0, run_last(r), hex(&r.1))}
+
+fn shadow_find(rs: &[(u32, Vec<u8>)], a: u32, mode: Search) -> Option<usize>
+{
+	if let Some(i) = rs.iter().position(|r| r.0 <= a && a <= run_last(r)) {return Some(i);}
+	match mode
+	{
+		Search::Exact => None,
+		Search::Below => rs.iter().rposition(|r| run_last(r) < a),
+		Search::Above => rs.iter().position(|r| r.0 > a),
+	}
+}
+
+// ------------------------------------------------------------------------------------------------
+// the real map: canonical text of every operation
+
+fn dump(map: &MemoryMap) -> String
+{
+	let mut s = String::from("[");
+	for (i, (r, d)) in map.iter().enumerate()
+	{
+		if i > 0 {s.push(',');}
+		s.push_str(&format!("{:08x}:{}", r.get_first(), hex(d)));
+	}
+	s.push(']');
+	s
+}
+
+fn mode_of(s: &str) -> Option<Search>
+{
+	match s {"e" => Some(Search::Exact), "b" => Some(Search::Below), "a" => Some(Search::Above), _ => None}
+}
+
+fn fmt_range(r: MemoryRange) -> String {format!("{:08x} {:08x}", r.get_first(), r.get_last())}
+
+/// Apply one text op to the real map (under `guarded`) and to the shadow; returns the canonical return
+/// text of the implementation and the oracle's complaint, if any.
+fn real_op(map: &mut MemoryMap, sh: &mut Shadow, op: &str) -> Result<(String, Option<String>), String>
+{
+	let w: Vec<&str> = op.split(':').collect();
+	let num = |s: &str| s.parse::<u32>().map_err(|_| format!("bad number {s}"));
+	match w.as_slice()
+	{
+		["put", a, d] =>
+		{
+			let (a, d) = (num(a)?, unhex(d).ok_or("bad hex")?);
+			let before = dump(map);
+			let r = guarded(|| map.put(a, &d));
+			let overflow = !d.is_empty() && a as u64 + d.len() as u64 > 1 << 32;
+			let mut bad = None;
+			let text = match r
+			{
+				Err(p) => format!("PANIC: {p}"),
+				Ok(Ok(n)) =>
+				{
+					if overflow {bad = Some(format!("put of {} bytes at {a:08x} runs past 0xFFFFFFFF but was accepted", d.len()));}
+					else
+					{
+						let fresh = (0..d.len()).filter(|&k| !sh.contains_key(&(a + k as u32))).count();
+						if fresh != n {bad = Some(format!("put returned {n}, but {fresh} previously unoccupied addresses were filled"));}
+						for (k, &b) in d.iter().enumerate() {sh.insert(a + k as u32, b);}
+					}
+					format!("ok {n}")
+				},
+				Ok(Err(PutError::Overflow{need, have})) =>
+				{
+					if !overflow {bad = Some(format!("put of {} bytes at {a:08x} fits but was rejected", d.len()));}
+					else if dump(map) != before {bad = Some("rejected put changed the map".to_owned());}
+					format!("err {need} {have}")
+				},
+			};
+			Ok((text, bad))
+		},
+		["rm", a] =>
+		{
+			let a = num(a)?;
+			let rs = runs(sh);
+			let want = shadow_find(&rs, a, Search::Exact).map(|i| rs[i].clone());
+			let r = guarded(|| map.remove(a));
+			let mut bad = None;
+			let text = match r
+			{
+				Err(p) => format!("PANIC: {p}"),
+				Ok(None) =>
+				{
+					if let Some(w) = &want {bad = Some(format!("remove({a:08x}) returned None, dictionary has the run {}", fmt_run(w)));}
+					"none".to_owned()
+				},
+				Ok(Some((r, d))) =>
+				{
+					let got = format!("{} {}", fmt_range(r), hex(&d));
+					match &want
+					{
+						None => bad = Some(format!("remove({a:08x}) returned {got}, dictionary has nothing there")),
+						Some(w) => if fmt_run(w) != got {bad = Some(format!("remove({a:08x}) returned {got}, the run is {}", fmt_run(w)));},
+					}
+					format!("some {got}")
+				},
+			};
+			if let Some(w) = want {for k in 0..w.1.len() {sh.remove(&(w.0 + k as u32));}}
+			Ok((text, bad))
+		},
+		["rr", lo, hi] =>
+		{
+			let (lo, hi) = (num(lo)?, num(hi)?);
+			let r = guarded(|| map.remove_range(MemoryRange::new(lo, hi)));
+			if lo <= hi
+			{
+				let keys: Vec<u32> = sh.range(lo..=hi).map(|(k, _)| *k).collect();
+				for k in keys {sh.remove(&k);}
+			}
+			let text = match r {Err(p) => if lo > hi {"panic".to_owned()} else {format!("PANIC: {p}")}, Ok(()) => "ok".to_owned()};
+			Ok((text, None))
+		},
+		["clr"] =>
+		{
+			let r = guarded(|| map.clear());
+			sh.clear();
+			Ok((match r {Err(p) => format!("PANIC: {p}"), Ok(()) => "ok".to_owned()}, None))
+		},
+		["find", a, m] =>
+		{
+			let (a, m) = (num(a)?, mode_of(m).ok_or("bad mode")?);
+			let rs = runs(sh);
+			let want = shadow_find(&rs, a, m).map(|i| format!("{:08x} {:08x}", rs[i].0, run_last(&rs[i]))).unwrap_or("none".to_owned());
+			let text = match guarded(|| map.find(a, m)) {Err(p) => format!("PANIC: {p}"), Ok(None) => "none".to_owned(), Ok(Some(r)) => fmt_range(r)};
+			let bad = if text != want {Some(format!("find({a:08x}, {m:?}) = {text}, dictionary says {want}"))} else {None};
+			Ok((text, bad))
+		},
+		["get", a, m] =>
+		{
+			let (a, m) = (num(a)?, mode_of(m).ok_or("bad mode")?);
+			let text = match guarded(|| map.get(a, m).map(|(r, d)| (r, d.to_vec())))
+			{
+				Err(_) => "panic".to_owned(),
+				Ok(None) => "none".to_owned(),
+				Ok(Some((r, d))) => format!("{} {}", fmt_range(r), hex(&d)),
+			};
+			let mut bad = None;
+			if m == Search::Exact
+			{
+				let rs = runs(sh);
+				let want = match shadow_find(&rs, a, m)
+				{
+					None => "none".to_owned(),
+					Some(i) => format!("{:08x} {:08x} {}", rs[i].0, run_last(&rs[i]), hex(&rs[i].1[(a - rs[i].0) as usize..])),
+				};
+				if text != want {bad = Some(format!("get({a:08x}, Exact) = {text}, dictionary says {want}"));}
+			}
+			Ok((text, bad))
+		},
+		["cnt"] =>
+		{
+			let rs = runs(sh);
+			let want = format!("{} {}", sh.len().min(u32::MAX as usize), rs.len());
+			let text = match guarded(|| map.count()) {Err(p) => format!("PANIC: {p}"), Ok((n, s)) => format!("{n} {s}")};
+			let bad = if text != want {Some(format!("count() = {text}, dictionary says {want}"))} else {None};
+			Ok((text, bad))
+		},
+		["cr", lo, hi] =>
+		{
+			let (lo, hi) = (num(lo)?, num(hi)?);
+			if lo > hi
+			{
+				let r = guarded(|| {MemoryRange::new(lo, hi);});
+				return Ok((if r.is_err() {"panic".to_owned()} else {"no-panic".to_owned()}, None));
+			}
+			let rs = runs(sh);
+			let n = sh.range(lo..=hi).count().min(u32::MAX as usize);
+			let s = rs.iter().filter(|r| r.0 <= hi && run_last(r) >= lo).count();
+			let want = format!("{n} {s}");
+			let text = match guarded(|| map.count_range(MemoryRange::new(lo, hi))) {Err(p) => format!("PANIC: {p}"), Ok((n, s)) => format!("{n} {s}")};
+			let bad = if text != want {Some(format!("count_range({lo:08x}..={hi:08x}) = {text}, dictionary says {want}"))} else {None};
+			Ok((text, bad))
+		},
+		["ir", lo, hi] =>
+		{
+			let (lo, hi) = (num(lo)?, num(hi)?);
+			if lo > hi
+			{
+				let r = guarded(|| {MemoryRange::new(lo, hi);});
+				return Ok((if r.is_err() {"panic".to_owned()} else {"no-panic".to_owned()}, None));
+			}
+			let rs = runs(sh);
+			let mut items = Vec::new();
+			for r in rs.iter().filter(|r| r.0 <= hi && run_last(r) >= lo)
+			{
+				let f = r.0.max(lo);
+				let l = run_last(r).min(hi);
+				items.push(format!("{f:08x} {l:08x} {}", hex(&r.1[(f - r.0) as usize..=(l - r.0) as usize])));
+			}
+			let want = if items.is_empty() {"-".to_owned()} else {items.join(",")};
+			let text = match guarded(|| map.iter_range(MemoryRange::new(lo, hi)).map(|(r, d)| format!("{} {}", fmt_range(r), hex(d))).collect::<Vec<_>>())
+			{
+				Err(p) => format!("PANIC: {p}"),
+				Ok(v) => if v.is_empty() {"-".to_owned()} else {v.join(",")},
+			};
+			let bad = if text != want {Some(format!("iter_range({lo:08x}..={hi:08x}) = {text}, dictionary says {want}"))} else {None};
+			Ok((text, bad))
+		},
+		["len"] => Ok((format!("{}", map.len()), if map.len() != runs(sh).len() {Some("len() differs from the number of runs".to_owned())} else {None})),
+		_ => Err(format!("unrecognised op {op}")),
+	}
+}
+
+/// the state oracle: contents equal the shadow; segments ascending, non-empty, non-overlapping, maximally merged
+fn state_oracle(map: &MemoryMap, sh: &Shadow) -> Option<String>
+{
+	let mut prev_last: Option<u32> = None;
+	let mut n = 0usize;
+	let mut it = sh.iter();
+	for (r, d) in map.iter()
+	{
+		let (f, l) = (r.get_first(), r.get_last());
+		if d.is_empty() {return Some(format!("empty segment at {f:08x}"));}
+		if l < f || (l - f) as usize + 1 != d.len() {return Some(format!("segment {f:08x}..{l:08x} holds {} bytes", d.len()));}
+		if let Some(p) = prev_last
+		{
+			if f <= p {return Some(format!("segments not ascending / overlapping at {f:08x}"));}
+			if f == p + 1 {return Some(format!("segments {p:08x} and {f:08x} touch but are not merged"));}
+		}
+		prev_last = Some(l);
+		for (k, &b) in d.iter().enumerate()
+		{
+			match it.next()
+			{
+				Some((&a, &v)) if a == f + k as u32 && v == b => (),
+				other => return Some(format!("map holds {b:02x} at {:08x}, dictionary continues with {other:?}", f + k as u32)),
+			}
+		}
+		n += d.len();
+	}
+	if n != sh.len() {return Some(format!("map holds {n} bytes, dictionary {}", sh.len()));}
+	None
+}
+
+// ------------------------------------------------------------------------------------------------
+// text histories
+
+fn check_run(cx: &mut Cx, ops: &str, reply: &str)
+{
+	let input = format!("run {ops}");
+	let mut map = MemoryMap::new();
+	let mut sh = Shadow::new();
+	let mut parts = Vec::new();
+	let mut oracle: Option<String> = None;
+	for (i, op) in ops.split(';').filter(|s| !s.is_empty()).enumerate()
+	{
+		match real_op(&mut map, &mut sh, op)
+		{
+			Err(e) => {cx.report.oracle_fail(input.clone(), format!("malformed op {i}: {e}")); return;},
+			Ok((text, bad)) =>
+			{
+				cx.report.hit(op.split(':').next().unwrap_or("?"));
+				let bad = bad.or_else(|| state_oracle(&map, &sh));
+				if let (None, Some(b)) = (&oracle, bad) {oracle = Some(format!("after op {i} ({op}): {b}"));}
+				parts.push(format!("{text} {}", dump(&map)));
+			},
+		}
+	}
+	let imp = parts.join(" | ");
+	cx.report.case(Some(&imp));
+	if reply != imp
+	{
+		// name the first differing op
+		let (m, r): (Vec<&str>, Vec<&str>) = (reply.split(" | ").collect(), imp.split(" | ").collect());
+		let k = (0..m.len().max(r.len())).find(|&k| m.get(k) != r.get(k)).unwrap_or(0);
+		cx.report.disagree("model.map.run", input.clone(), format!("op {k}: {}", m.get(k).unwrap_or(&"<missing>")), format!("op {k}: {}", r.get(k).unwrap_or(&"<missing>")));
+	}
+	if let Some(o) = oracle {cx.report.oracle_fail(input, o);}
+}
+
+fn gen_history(rng: &mut Rng, nops: usize) -> String
+{
+	// a few centres: both ends of the address space and random places
+	let mut centres: Vec<u64> = vec![0, 0xFFFF_FFFF];
+	for _ in 0..2 {centres.push(rng.below(1 << 32));}
+	let kind = rng.below(4);
+	let centres: Vec<u64> = match kind {0 => vec![0], 1 => vec![0xFFFF_FFFF], 2 => vec![rng.below(1 << 32)], _ => centres};
+	let spread = *rng.pick(&[8u64, 24, 64]);
+	let addr = |rng: &mut Rng| -> u32
+	{
+		if rng.chance(1, 40) {return *rng.pick(&[0u32, 1, 0xFFFF_FFFF, 0xFFFF_FFFE]);}
+		let c = *rng.pick(&centres) as i64;
+		(c + rng.range(-(spread as i64), spread as i64)).clamp(0, 0xFFFF_FFFF) as u32
+	};
+	let mut ops = Vec::with_capacity(nops);
+	for _ in 0..nops
+	{
+		let a = addr(rng);
+		let b = addr(rng);
+		let (lo, hi) = (a.min(b), a.max(b));
+		let op = match rng.below(100)
+		{
+			0..=39 =>
+			{
+				let n = match rng.below(10) {0 => 0, 1..=6 => rng.below(5), _ => rng.below(20)} as usize;
+				let d: Vec<u8> = (0..n).map(|_| rng.next() as u8).collect();
+				format!("put:{a}:{}", hex(&d))
+			},
+			40..=49 => format!("rm:{a}"),
+			50..=64 => format!("rr:{lo}:{hi}"),
+			65 => "clr".to_owned(),
+			66..=77 => format!("find:{a}:{}", rng.pick(&["e", "b", "a"])),
+			78..=82 => format!("get:{a}:e"),
+			83..=86 => "cnt".to_owned(),
+			87..=92 => format!("cr:{lo}:{hi}"),
+			93..=98 => format!("ir:{lo}:{hi}"),
+			_ => "len".to_owned(),
+		};
+		ops.push(op);
+	}
+	ops.join(";")
+}
+
+// ------------------------------------------------------------------------------------------------
+// exhaustive enumeration (mirrors Driver/Map.lean: applyIdx, hashQueries, enumGo)
+
+#[inline]
+fn mix(h: u64, n: u64) -> u64 {(h ^ n).wrapping_mul(0x100000001b3)}
+
+fn mix_bytes(mut h: u64, d: &[u8]) -> u64
+{
+	h = mix(h, d.len() as u64);
+	for &b in d {h = mix(h, b as u64);}
+	h
+}
+
+fn mix_state(mut h: u64, map: &MemoryMap) -> u64
+{
+	h = mix(h, map.len() as u64);
+	for (r, d) in map.iter() {h = mix_bytes(mix(mix(h, r.get_first() as u64), r.get_last() as u64), d);}
+	h
+}
+
+fn pairs6() -> Vec<(u32, u32)>
+{
+	let mut v = Vec::new();
+	for lo in 0..6 {for hi in lo..6 {v.push((lo, hi));}}
+	v
+}
+
+fn data_at(t: usize, n: usize) -> Vec<u8> {(0..n).map(|j| ((16 * (t + 1) + j) % 256) as u8).collect()}
+
+/// text form of alphabet entry `i` at history position `t`
+fn op_text(base: u32, t: usize, i: usize) -> String
+{
+	if i < 30 {format!("put:{}:{}", base + (i / 5) as u32, hex(&data_at(t, i % 5)))}
+	else if i < 36 {format!("rm:{}", base + (i - 30) as u32)}
+	else if i < 57 {let p = pairs6()[i - 36]; format!("rr:{}:{}", base + p.0, base + p.1)}
+	else {"clr".to_owned()}
+}
+
+fn probes(base: u32) -> Vec<u32>
+{
+	let mut v = vec![0u32];
+	if base > 0 {v.push(base - 1);}
+	for k in 0..6 {v.push(base + k);}
+	if base as u64 + 6 <= u32::MAX as u64 {v.push(base + 6);}
+	v.push(u32::MAX);
+	v
+}
+
+fn query_ops(base: u32) -> Vec<String>
+{
+	let pr = probes(base);
+	let mut v = Vec::new();
+	for &a in &pr
+	{
+		for m in ["e", "b", "a"] {v.push(format!("find:{a}:{m}"));}
+		v.push(format!("get:{a}:e"));
+	}
+	v.push("cnt".to_owned());
+	for &lo in &pr {for &hi in &pr {if lo <= hi {v.push(format!("cr:{lo}:{hi}")); v.push(format!("ir:{lo}:{hi}"));}}}
+	v
+}
+
+struct Enum<'a>
+{
+	base: u32,
+	depth: usize,
+	qd: usize,
+	pairs: Vec<(u32, u32)>,
+	probes: Vec<u32>,
+	nodes: u64,
+	queries: u64,
+	/// first oracle failure: (path of op indices, message)
+	failure: Option<(Vec<usize>, String)>,
+	path: Vec<usize>,
+	hist: &'a mut [u64; 8],
+}
+
+impl<'a> Enum<'a>
+{
+	fn fail(&mut self, msg: String)
+	{
+		if self.failure.is_none() {self.failure = Some((self.path.clone(), msg));}
+	}
+
+	/// apply alphabet entry `i` at position `t` to the real map and the shadow; hash exactly as the model does; run the oracle
+	fn apply(&mut self, t: usize, i: usize, map: &mut MemoryMap, sh: &mut Shadow, mut h: u64) -> u64
+	{
+		self.nodes += 1;
+		let base = self.base;
+		if i < 30
+		{
+			let a = base + (i / 5) as u32;
+			let d = data_at(t, i % 5);
+			let overflow = !d.is_empty() && a as u64 + d.len() as u64 > 1 << 32;
+			let before = if overflow {Some(map.clone())} else {None};
+			match guarded(|| map.put(a, &d))
+			{
+				Err(p) => {h = mix(h, 98); self.fail(format!("put panicked: {p}"));},
+				Ok(Ok(n)) =>
+				{
+					h = mix(mix(h, 1), n as u64);
+					if overflow {self.fail("put past 0xFFFFFFFF accepted".to_owned());}
+					else
+					{
+						let fresh = (0..d.len()).filter(|&k| !sh.contains_key(&(a + k as u32))).count();
+						if fresh != n {self.fail(format!("put returned {n}, {fresh} addresses were previously unoccupied"));}
+						for (k, &b) in d.iter().enumerate() {sh.insert(a + k as u32, b);}
+						self.hist[if n == d.len() {0} else if n == 0 {1} else {2}] += 1;
+					}
+				},
+				Ok(Err(PutError::Overflow{need, have})) =>
+				{
+					h = mix(mix(mix(h, 2), need as u64), have as u64);
+					self.hist[3] += 1;
+					if !overflow {self.fail("fitting put rejected".to_owned());}
+					else if before.map(|b| dump(&b)) != Some(dump(map)) {self.fail("rejected put changed the map".to_owned());}
+				},
+			}
+		}
+		else if i < 36
+		{
+			let a = base + (i - 30) as u32;
+			let rs = runs(sh);
+			let want = shadow_find(&rs, a, Search::Exact).map(|k| rs[k].clone());
+			match guarded(|| map.remove(a))
+			{
+				Err(p) => {h = mix(h, 98); self.fail(format!("remove panicked: {p}"));},
+				Ok(None) =>
+				{
+					h = mix(h, 3);
+					if want.is_some() {self.fail(format!("remove({a:08x}) = None but the address is occupied"));}
+					self.hist[4] += 1;
+				},
+				Ok(Some((r, d))) =>
+				{
+					h = mix_bytes(mix(mix(mix(h, 4), r.get_first() as u64), r.get_last() as u64), &d);
+					match &want
+					{
+						Some(w) if w.0 == r.get_first() && run_last(w) == r.get_last() && w.1 == d => (),
+						_ => self.fail(format!("remove({a:08x}) returned {} {}, dictionary run {:?}", fmt_range(r), hex(&d), want)),
+					}
+					self.hist[5] += 1;
+				},
+			}
+			if let Some(w) = want {for k in 0..w.1.len() {sh.remove(&(w.0 + k as u32));}}
+		}
+		else if i < 57
+		{
+			let p = self.pairs[i - 36];
+			let (lo, hi) = (base + p.0, base + p.1);
+			match guarded(|| map.remove_range(MemoryRange::new(lo, hi)))
+			{
+				Err(p) => {h = mix(h, 98); self.fail(format!("remove_range panicked: {p}"));},
+				Ok(()) => h = mix(h, 5),
+			}
+			let keys: Vec<u32> = sh.range(lo..=hi).map(|(k, _)| *k).collect();
+			for k in keys {sh.remove(&k);}
+			self.hist[6] += 1;
+		}
+		else
+		{
+			match guarded(|| map.clear())
+			{
+				Err(p) => {h = mix(h, 98); self.fail(format!("clear panicked: {p}"));},
+				Ok(()) => h = mix(h, 6),
+			}
+			sh.clear();
+			self.hist[7] += 1;
+		}
+		h = mix_state(h, map);
+		if let Some(b) = state_oracle(map, sh) {self.fail(b);}
+		if t + 1 <= self.qd {h = self.queries(map, sh, h);}
+		h
+	}
+
+	fn queries(&mut self, map: &MemoryMap, sh: &Shadow, mut h: u64) -> u64
+	{
+		let rs = runs(sh);
+		let pr = self.probes.clone();
+		for &a in &pr
+		{
+			for m in [Search::Exact, Search::Below, Search::Above]
+			{
+				self.queries += 1;
+				let want = shadow_find(&rs, a, m).map(|k| (rs[k].0, run_last(&rs[k])));
+				match guarded(|| map.find(a, m))
+				{
+					Err(p) => {h = mix(h, 98); self.fail(format!("find panicked: {p}"));},
+					Ok(None) => {h = mix(h, 10); if want.is_some() {self.fail(format!("find({a:08x},{m:?}) = None, dictionary {want:?}"));}},
+					Ok(Some(r)) =>
+					{
+						h = mix(mix(mix(h, 11), r.get_first() as u64), r.get_last() as u64);
+						if want != Some((r.get_first(), r.get_last())) {self.fail(format!("find({a:08x},{m:?}) = {}, dictionary {want:?}", fmt_range(r)));}
+					},
+				}
+			}
+			self.queries += 1;
+			let want = shadow_find(&rs, a, Search::Exact).map(|k| (rs[k].0, run_last(&rs[k]), rs[k].1[(a - rs[k].0) as usize..].to_vec()));
+			match guarded(|| map.get(a, Search::Exact).map(|(r, d)| (r, d.to_vec())))
+			{
+				Err(p) => {h = mix(h, 98); self.fail(format!("get panicked: {p}"));},
+				Ok(None) => {h = mix(h, 12); if want.is_some() {self.fail(format!("get({a:08x},Exact) = None but occupied"));}},
+				Ok(Some((r, d))) =>
+				{
+					h = mix_bytes(mix(mix(mix(h, 13), r.get_first() as u64), r.get_last() as u64), &d);
+					if want != Some((r.get_first(), r.get_last(), d.clone())) {self.fail(format!("get({a:08x},Exact) = {} {}, dictionary {want:?}", fmt_range(r), hex(&d)));}
+				},
+			}
+		}
+		self.queries += 1;
+		match guarded(|| map.count())
+		{
+			Err(p) => {h = mix(h, 98); self.fail(format!("count panicked: {p}"));},
+			Ok((n, s)) =>
+			{
+				h = mix(mix(mix(h, 14), n as u64), s as u64);
+				if n as usize != sh.len() || s != rs.len() {self.fail(format!("count() = ({n},{s}), dictionary ({},{})", sh.len(), rs.len()));}
+			},
+		}
+		for &lo in &pr
+		{
+			for &hi in &pr
+			{
+				if lo > hi {continue;}
+				self.queries += 2;
+				let wn = sh.range(lo..=hi).count();
+				let inter: Vec<&(u32, Vec<u8>)> = rs.iter().filter(|r| r.0 <= hi && run_last(r) >= lo).collect();
+				match guarded(|| map.count_range(MemoryRange::new(lo, hi)))
+				{
+					Err(p) => {h = mix(h, 98); self.fail(format!("count_range panicked: {p}"));},
+					Ok((n, s)) =>
+					{
+						h = mix(mix(mix(h, 15), n as u64), s as u64);
+						if n as usize != wn || s != inter.len() {self.fail(format!("count_range({lo:08x}..={hi:08x}) = ({n},{s}), dictionary ({wn},{})", inter.len()));}
+					},
+				}
+				match guarded(|| map.iter_range(MemoryRange::new(lo, hi)).map(|(r, d)| (r.get_first(), r.get_last(), d.to_vec())).collect::<Vec<_>>())
+				{
+					Err(p) => {h = mix(h, 98); self.fail(format!("iter_range panicked: {p}"));},
+					Ok(v) =>
+					{
+						h = mix(mix(h, 16), v.len() as u64);
+						for (f, l, d) in &v {h = mix_bytes(mix(mix(h, *f as u64), *l as u64), d);}
+						let want: Vec<(u32, u32, Vec<u8>)> = inter.iter().map(|r|
+						{
+							let (f, l) = (r.0.max(lo), run_last(r).min(hi));
+							(f, l, r.1[(f - r.0) as usize..=(l - r.0) as usize].to_vec())
+						}).collect();
+						if v != want {self.fail(format!("iter_range({lo:08x}..={hi:08x}) = {v:?}, dictionary {want:?}"));}
+					},
+				}
+			}
+		}
+		h
+	}
+
+	fn go(&mut self, t: usize, map: &MemoryMap, sh: &Shadow, mut h: u64) -> u64
+	{
+		if t >= self.depth {return h;}
+		for i in 0..58
+		{
+			let mut m2 = map.clone();
+			let mut s2 = sh.clone();
+			self.path.push(i);
+			h = self.apply(t, i, &mut m2, &mut s2, h);
+			h = self.go(t + 1, &m2, &s2, h);
+			self.path.pop();
+		}
+		h
+	}
+
+	fn prefix(&mut self, pre: &[usize]) -> u64
+	{
+		let mut map = MemoryMap::new();
+		let mut sh = Shadow::new();
+		let mut h = FNV_INIT;
+		for (t, &i) in pre.iter().enumerate()
+		{
+			self.path.push(i);
+			h = self.apply(t, i, &mut map, &mut sh, h);
+		}
+		self.go(pre.len(), &map, &sh, h)
+	}
+}
+
+struct EnumOut
+{
+	digest: u64,
+	nodes: u64,
+	queries: u64,
+	failure: Option<(Vec<usize>, String)>,
+	hist: [u64; 8],
+}
+
+fn real_enum(base: u32, depth: usize, qd: usize, pre: &[usize]) -> EnumOut
+{
+	let mut hist = [0u64; 8];
+	let mut e = Enum{base, depth, qd, pairs: pairs6(), probes: probes(base), nodes: 0, queries: 0, failure: None, path: Vec::new(), hist: &mut hist};
+	let digest = e.prefix(pre);
+	let (nodes, queries, failure) = (e.nodes, e.queries, e.failure.take());
+	EnumOut{digest, nodes, queries, failure, hist}
+}
+
+fn pre_text(pre: &[usize]) -> String
+{
+	if pre.is_empty() {"-".to_owned()} else {pre.iter().map(|i| i.to_string()).collect::<Vec<_>>().join(",")}
+}
+
+/// the history along a path as text ops, with every query after every op of depth ≤ qd
+fn path_ops(base: u32, qd: usize, path: &[usize]) -> String
+{
+	let mut v = Vec::new();
+	for (t, &i) in path.iter().enumerate()
+	{
+		v.push(op_text(base, t, i));
+		if t + 1 <= qd {v.extend(query_ops(base));}
+	}
+	v.join(";")
+}
+
+/// digest mismatch below `pre`: walk down to the first differing node and report it as a text history
+fn bisect(cx: &mut Cx, base: u32, depth: usize, qd: usize, pre: Vec<usize>)
+{
+	let mut pre = pre;
+	loop
+	{
+		// does the path itself differ?
+		let ops = path_ops(base, qd, &pre);
+		let reply = cx.model.ask(&format!("map run {ops}"));
+		let before = cx.report.disagreements_total;
+		check_run(cx, &ops, &reply);
+		if cx.report.disagreements_total > before || pre.len() >= depth {break;}
+		let mut next = None;
+		for i in 0..58
+		{
+			let mut p = pre.clone();
+			p.push(i);
+			let m = cx.model.ask(&format!("map enum {base} {depth} {qd} {}", pre_text(&p)));
+			let r = real_enum(base, depth, qd, &p);
+			if m != format!("{:016x}", r.digest) {next = Some(p); break;}
+		}
+		match next {Some(p) => pre = p, None => break}
+	}
+	if cx.report.disagreements_total == 0
+	{
+		cx.report.disagree("model.map.enum", format!("enum {base} {depth} {qd} {}", pre_text(&pre)), "digest differs", "no differing text history found");
+	}
+}
+
+fn check_enum(cx: &mut Cx, base: u32, depth: usize, qd: usize, pre: &[usize], model_digest: &str, out: EnumOut)
+{
+	let input = format!("enum {base} {depth} {qd} {}", pre_text(pre));
+	cx.report.cases(out.nodes + out.queries);
+	cx.report.distinct_key(out.digest);
+	for (k, name) in ["put: all new", "put: all overwritten", "put: mixed", "put: overflow rejected", "remove: none", "remove: some", "remove_range", "clear"].iter().enumerate()
+	{
+		cx.report.hit_n(name, out.hist[k]);
+	}
+	cx.report.hit_n("enumerated histories (one per node)", out.nodes);
+	cx.report.hit_n("enumerated queries", out.queries);
+	if let Some((path, msg)) = out.failure
+	{
+		let ops = path_ops(base, qd, &path);
+		cx.report.oracle_fail(format!("run {ops}"), format!("window {base:08x}, history {path:?}: {msg}"));
+	}
+	if model_digest != format!("{:016x}", out.digest)
+	{
+		let before = cx.report.disagreements_total;
+		bisect(cx, base, depth, qd, pre.to_vec());
+		if cx.report.disagreements_total == before
+		{
+			cx.report.disagree("model.map.enum", input, model_digest, format!("{:016x}", out.digest));
+		}
+	}
+}
+
+fn exhaustive(cx: &mut Cx, depth: usize, qd: usize)
+{
+	let bases = [0u32, 0xFFFF_FFFA];
+	let tasks: Vec<(u32, usize)> = bases.iter().flat_map(|&b| (0..58).map(move |i| (b, i))).collect();
+	let next = AtomicUsize::new(0);
+	let results: Mutex<Vec<(u32, usize, String, EnumOut)>> = Mutex::new(Vec::new());
+	let workers = if depth >= 5 {4} else {2};
+	std::thread::scope(|s|
+	{
+		for _ in 0..workers
+		{
+			s.spawn(||
+			{
+				let mut model = Model::spawn();
+				loop
+				{
+					let k = next.fetch_add(1, Ordering::SeqCst);
+					if k >= tasks.len() {break;}
+					let (base, i) = tasks[k];
+					let m = model.ask(&format!("map enum {base} {depth} {qd} {i}"));
+					let out = real_enum(base, depth, qd, &[i]);
+					results.lock().unwrap().push((base, i, m, out));
+				}
+			});
+		}
+	});
+	let mut results = results.into_inner().unwrap();
+	results.sort_by_key(|r| (r.0, r.1));
+	cx.model.requests += results.len() as u64;
+	for (base, i, m, out) in results {check_enum(cx, base, depth, qd, &[i], &m, out);}
+}
+
+pub fn run(_id: &str, cx: &mut Cx)
+{
+	cx.report.rule = "exhaustive: every history (one per tree node) of put/remove/remove_range/clear of length <= depth over the 58-op alphabet \
+(6 put addresses x data lengths 0-4, 6 remove addresses, 21 ranges, clear) of the 6-address windows at 0 and at 2^32-6; after every op return value + \
+full iter() dump hashed and compared with the model, state oracle against a BTreeMap shadow; at nodes of depth <= qdepth every find(Exact/Below/Above), \
+get(Exact), count, count_range, iter_range over the probe set {0, window-1 .. window+6, 0xFFFFFFFF}. random: 200-op text histories at both ends and random places. \
+evaluations = ops + queries executed on the real map; non-trivial = every history (return values and dump after every op); distinct = distinct per-subtree digests / distinct history transcripts".to_owned();
+
+	if let Some(input) = cx.replay.clone()
+	{
+		let w: Vec<&str> = input.splitn(2, ' ').collect();
+		match w.as_slice()
+		{
+			["run", ops] =>
+			{
+				let reply = cx.model.ask(&format!("map run {ops}"));
+				check_run(cx, ops, &reply);
+			},
+			["enum", rest] =>
+			{
+				let f: Vec<&str> = rest.split(' ').collect();
+				if f.len() != 4 {cx.report.oracle_fail(input.clone(), "unrecognised replay input"); return;}
+				let (base, depth, qd) = (f[0].parse::<u32>().unwrap(), f[1].parse::<usize>().unwrap(), f[2].parse::<usize>().unwrap());
+				let pre: Vec<usize> = if f[3] == "-" {Vec::new()} else {f[3].split(',').map(|s| s.parse().unwrap()).collect()};
+				let m = cx.model.ask(&format!("map enum {base} {depth} {qd} {}", f[3]));
+				let out = real_enum(base, depth, qd, &pre);
+				check_enum(cx, base, depth, qd, &pre, &m, out);
+			},
+			_ => cx.report.oracle_fail(input.clone(), "unrecognised replay input"),
+		}
+		return;
+	}
+
+	// fixed histories: the design-time examples and the boundary cases
+	let fixed = [
+		"put:4294967295:01;rr:0:5;find:3:a;find:4294967295:e;find:0:b;cnt;get:4294967295:e",
+		"put:4294967294:0102;put:4294967294:010203;put:4294967295:0102;cnt;ir:0:4294967295;cr:0:4294967295",
+		"put:0:01;put:2:02;put:1:03;find:0:e;rm:1;put:0:;cnt",
+		"put:10:0102030405;rr:11:12;put:12:ff;put:11:ee;rm:10;len",
+		"put:5:01;put:7:02;put:9:03;put:6:aabbcc;find:4:a;find:4:b;find:10:a;find:10:b;ir:6:8;cr:0:6",
+		"rr:5:3;cr:5:3;ir:5:3",
+	];
+	let lines: Vec<String> = fixed.iter().map(|f| format!("map run {f}")).collect();
+	let replies = cx.model.ask_many(&lines);
+	for (f, r) in fixed.iter().zip(replies.iter()) {check_run(cx, f, r);}
+	cx.report.sample(format!("run {} -> {}", fixed[0], replies[0]));
+
+	// exhaustive tier
+	let (depth, qd) = if cx.thorough() {(5, 3)} else {(4, 2)};
+	exhaustive(cx, depth, qd);
+	cx.report.exhaustive = true;
+	cx.report.notes.push(format!("exhaustive: all histories of length <= {depth} (queries after every op of depth <= {qd}) in the windows at 0x00000000 and 0xFFFFFFFA"));
+
+	// random long histories
+	let nhist = if cx.thorough() {4000} else {400};
+	let hs: Vec<String> = (0..nhist).map(|_| {let mut r = cx.rng.fork(); gen_history(&mut r, 200)}).collect();
+	cx.report.hit_n("random 200-op histories", nhist);
+	for chunk in hs.chunks(256)
+	{
+		let lines: Vec<String> = chunk.iter().map(|h| format!("map run {h}")).collect();
+		let replies = cx.model.ask_many(&lines);
+		for (h, r) in chunk.iter().zip(replies.iter()) {check_run(cx, h, r);}
+	}
+	if let Some(h) = hs.first() {cx.report.sample(format!("run {} …", &h[..h.len().min(160)]));}
 }
